@@ -432,6 +432,12 @@ pub fn vec_spans(rng: &mut Rng, len: usize) -> Vec<(usize, usize)> {
 /// length 1..=4+, shared prefixes / low nybbles so that buckets and
 /// fingerprints collide.
 pub fn packed_patterns(rng: &mut Rng) -> Vec<Vec<u8>> {
+    packed_patterns_with(rng, None, 128)
+}
+
+/// As `packed_patterns`, optionally forcing the minimum pattern length (which
+/// selects the Teddy fingerprint length) and capping the number of patterns.
+pub fn packed_patterns_with(rng: &mut Rng, force_min: Option<usize>, max_n: usize) -> Vec<Vec<u8>> {
     let n = match rng.below(10) {
         0 => 1,
         1 | 2 | 3 => rng.range(2, 8),
@@ -441,7 +447,11 @@ pub fn packed_patterns(rng: &mut Rng) -> Vec<Vec<u8>> {
         8 => rng.range(65, 128),
         _ => rng.range(2, 5),
     };
-    let minlen = *rng.pick(&[1usize, 2, 3, 4, 4, 5, 7]);
+    let n = n.min(max_n).max(1);
+    let minlen = match force_min {
+        Some(m) => m,
+        None => *rng.pick(&[1usize, 2, 3, 4, 4, 5, 7]),
+    };
     let maxlen = minlen + rng.below(5);
     let alpha: Vec<u8> = match rng.below(4) {
         0 => b"ab".to_vec(),
@@ -475,6 +485,9 @@ pub fn packed_patterns(rng: &mut Rng) -> Vec<Vec<u8>> {
     }
     if pats.is_empty() {
         pats.push(rand_string(rng, &alpha, minlen));
+    }
+    if force_min.is_some() && !pats.iter().any(|p| p.len() == minlen) {
+        pats[0].truncate(minlen);
     }
     pats
 }
